@@ -601,7 +601,10 @@ class GroupBy:
             True if any group key contains null values, False otherwise
         """
         if self.key_is_chunked:
-            return self.group_ikey.null_count > 0
+            # null keys are encoded as -1, they are not Arrow nulls
+            return any(
+                (chunk.to_numpy() < 0).any() for chunk in self.group_ikey.chunks
+            )
         else:
             return self.group_ikey.min() < 0
 
